@@ -245,6 +245,9 @@ func c11Run(r *core.Run) {
 	for _, a := range m.Assertions {
 		eo := *o
 		eo.Rand = t.SubRand("c11.rand2")
+		// (a plaintext that relies on the Response's namespace declarations instead of carrying its
+		// own is not generated: after exclusive canonicalisation of a signed Response the root no
+		// longer carries them, so the unchanged tree rejects that layout; see DESIGN.md 12)
 		a.Encrypt = &eo
 	}
 	encXML, err := s.IdP.Issue(m, lay, r.Sim.Now())
